@@ -31,6 +31,6 @@ InitP == (cfg \in {c \in Configs : Valid(c)} \/ cfg \in {c \in BeamConfigs : Bea
 NextP == UNCHANGED <<cfg, dummy>>
 SpecP == InitP /\ [][NextP]_<<cfg, dummy>>
 (* sanity of the oracle itself: the measure is positive and scales with |det A| *)
-OracleOK == cfg.phys = "beam" \/ (IsPos(Expect(cfg).measure) /\ Expect(cfg).orientation # 0)
+OracleOK == cfg.phys = "beam" \/ (IsPos(Expect(cfg).measure) /\ Expect(cfg).orientation # 0 /\ MeasureScales(cfg.dim, Expect(cfg).A))
 EmitOK == Emit => PrintT(<<"CASE", ToJson(IF cfg.phys = "beam" THEN ExpectB(cfg) ELSE Expect(cfg))>>)
 ====
